@@ -29,7 +29,17 @@ def plan(tier):
 GIDS = [0, 1, 2, 'a', 'b', ('t', 1), ('t', 2), None, frozenset([1]), frozenset([1, 2]), frozenset([3]), -1, 'A', True]
 
 
+BIG = [2 ** 53 + 1, 2 ** 53 + 2, 2 ** 53 + 3, 1.5, 2 ** 60, -2.5, 2 ** 53, 7]
+
+
+def natural(it, reverse=False):
+    """A sort_fn that disagrees with sorted() on strings: shorter strings first (natural sort of 'k2' < 'k10')."""
+    return sorted(list(it), key=lambda x: (len(x), x) if isinstance(x, str) else (0, x), reverse=reverse)
+
+
 def sort_fns(name):
+    if name == 'natural':
+        return natural
     if name == 'sorted':
         return None
     if name == 'wrapper':
@@ -45,6 +55,8 @@ def build(case):
     import lazy_dataset
     n = case['n']
     sv = case['sortvals']
+    if case.get('big'):
+        sv = [BIG[v % len(BIG)] for v in case['bigvals']]
     exs = [{'id': i, 'v': sv[i], 'pay': {'nested': [i]}} for i in range(n)]
     if case['src'] == 'dict':
         keys = case['keys']
@@ -89,8 +101,9 @@ def check(case):
             raise Violation('sort-len', f'{desc}\nlen {len(out)}')
         if case['keyless']:
             ks = [e['key'] for e in got]
-            if ks != sorted(ks, reverse=rev):
-                raise Violation('keyless-sort-order', f'{desc}\nkeys in result order: {ks}')
+            want_ks = natural(ks, reverse=rev) if case['sort_fn'] == 'natural' else sorted(ks, reverse=rev)
+            if ks != want_ks:
+                raise Violation('keyless-sort-order', f'{desc}\nkeys in result order: {ks}; sort_fn gives {want_ks}')
         else:
             vs = [e['v'] for e in got]
             ok = all(a >= b for a, b in zip(vs, vs[1:])) if rev else all(a <= b for a, b in zip(vs, vs[1:]))
@@ -141,12 +154,17 @@ def st_case(draw):
     case = {'n': n, 'src': src, 'sortvals': draw(st.lists(st.integers(0, 3), min_size=8, max_size=8)),
             'upstream': draw(st.sampled_from([None, None, 'map', 'slice', 'concat', 'cache']))}
     if src == 'dict':
-        case['keys'] = draw(st.permutations(['k%d' % i for i in range(8)]))[:n]
+        case['keys'] = draw(st.permutations(['k%d' % i for i in (0, 1, 2, 3, 10, 11, 20, 100)]))[:n]
     case['op'] = draw(st.sampled_from(['sort', 'sort', 'groupby']))
     if case['op'] == 'sort':
         case['reverse'] = draw(st.booleans())
         case['sort_fn'] = draw(st.sampled_from(['sorted', 'sorted', 'wrapper', 'partial', 'rev_input']))
         case['keyless'] = src == 'dict' and draw(st.booleans())
+        if case['keyless'] and draw(st.booleans()):
+            case['sort_fn'] = 'natural'
+        if not case['keyless'] and draw(st.integers(0, 3)) == 0:
+            case['big'] = True
+            case['bigvals'] = draw(st.lists(st.integers(0, 7), min_size=8, max_size=8))
     else:
         palette = draw(st.lists(st.integers(0, len(GIDS) - 1), min_size=1, max_size=4))
         case['gids'] = draw(st.lists(st.sampled_from(palette), min_size=8, max_size=8))
